@@ -340,16 +340,17 @@ class EditableModule(object):
         copy_tensors = copy.copy(copy_tensors0)
         _set_tensors(self, copy_tensors)
 
-        # run the method and see which one has the gradients
-        output = method(*args, **kwargs)
-        if not isinstance(output, torch.Tensor):
-            raise RuntimeError("The method to be asserted must have a tensor output")
-        output = output.sum()
-        grad_tensors = torch.autograd.grad(output, copy_tensors0, retain_graph=True, allow_unused=True)
-
-        # return the original tensor
-        all_tensors_copy = copy.copy(all_tensors)
-        _set_tensors(self, all_tensors_copy)
+        try:
+            # run the method and see which one has the gradients
+            output = method(*args, **kwargs)
+            if not isinstance(output, torch.Tensor):
+                raise RuntimeError("The method to be asserted must have a tensor output")
+            output = output.sum()
+            grad_tensors = torch.autograd.grad(output, copy_tensors0, retain_graph=True, allow_unused=True)
+        finally:
+            # return the original tensor (also when the method raises)
+            all_tensors_copy = copy.copy(all_tensors)
+            _set_tensors(self, all_tensors_copy)
 
         names = []
         params = []
